@@ -284,3 +284,30 @@ pub fn access_list<S: Src>(s: &mut S) {
         if present { s.check(d.regs[0] == n1, "finds_every_key"); } else { s.check(matches!(d.top(), Some(MCell::Unit)), "absent_is_unit"); }
     }
 }
+
+/// a concatenation of a list that has a nested list among its items with a list holding a keyed pair, one fixed shape
+/// `(a, (a, b), b) <> (b, k = a)`: the flat sequence has five items (the nested list is ONE item)
+fn concat_nested(d: &mut ModelData, key: u64) -> (usize, [usize; 5], usize) {
+    let n1 = d.add(MCell::Number(SimpleNumber::Integer(11))).unwrap();
+    let n2 = d.add(MCell::Number(SimpleNumber::Integer(22))).unwrap();
+    let inner = d.add(MCell::List([n1, n2, n2], 2)).unwrap();
+    let l1 = d.add(MCell::List([n1, inner, n2], 3)).unwrap();
+    let ka = d.add(MCell::Symbol(key)).unwrap();
+    let pa = d.add(MCell::Pair(ka, n1)).unwrap();
+    let right = d.add(MCell::List([n2, pa, n2], 2)).unwrap();
+    let c = d.add(MCell::Concatenation(l1, right)).unwrap();
+    (c, [n1, inner, n2, n2, pa], n1)
+}
+
+/// index k yields the k-th item of the flat sequence, "no item" outside - never an error, one result
+pub fn access_concat_index<S: Src>(s: &mut S) {
+    let mut d = ModelData::new();
+    let (c, flat, _) = concat_nested(&mut d, 7);
+    d.push_register(c).unwrap();
+    let k = s.i32(); s.assume(k >= -1 && k <= 6);
+    let ia = d.add(MCell::Number(SimpleNumber::Integer(k))).unwrap();
+    d.push_register(ia).unwrap();
+    let r = ops::access(&mut d);
+    s.check(r.is_ok() && d.nregs == 1, "never_an_error_one_result");
+    if k >= 0 && (k as usize) < 5 { s.check(d.regs[0] == flat[k as usize], "index_k_yields_flat_item_k"); } else { s.check(matches!(d.top(), Some(MCell::Unit)), "outside_is_no_item"); }
+}
